@@ -23,7 +23,7 @@ from . import cluster_units as CU
 from .common import (bound_args, borrow, call_name, enclosing_loops, iteration_segments, path_must,
                      short, stmt_contains)
 
-FLOORS = {'C04.T12': 1, 'C04.T10': 1, 'C04.T1': 2, 'C04.T2': 7, 'C04.T3': 3, 'C04.T4': 1, 'C04.T6': 1, 'C04.T7': 1, 'C04.T8': 1}
+FLOORS = {'C04.T12': 1, 'C04.T15': 4, 'C04.T14': 4, 'C04.T10': 1, 'C04.T1': 2, 'C04.T2': 7, 'C04.T3': 3, 'C04.T4': 1, 'C04.T6': 1, 'C04.T7': 1, 'C04.T8': 1}
 
 QUEUE = 'Scheduler.observation_queue'
 ORDER = ['UNSCHEDULED', 'SCHEDULED', 'RUNNING', 'FINISHED']
@@ -50,6 +50,7 @@ def check(repo, res, tier):
     t10(repo, res, logic)
     t12(repo, res, canon, logic)
     t14(repo, res, canon, logic)
+    t15(repo, res)
     t2b(repo, res, canon, logic)
     from . import c11, c19
     borrow(repo, res, tier, c19, {'C19.K', 'C19.F'}, 'C04.T4')
@@ -58,6 +59,10 @@ def check(repo, res, tier):
     res.rule('C04.T9', 'adopted: a finished task returns its machine to its observation\'s reservation while that '
                        'exists (C09.R4) -- otherwise the reservation entry is never dropped and the run does not end quiescent')
     borrow(repo, res, tier, c09, {'C09.R4'}, 'C04.T9')
+    res.rule('C04.T16', 'adopted C05.L4c: releasing a reservation never raises for an observation that holds none (the second '
+                        'release of a finished workflow, every non-batch algorithm): an exception there kills the scheduler process '
+                        'and the run ends with observations queued and reservations held')
+    borrow(repo, res, tier, c05, {'C05.L4c'}, 'C04.T16')
     from . import c02 as _c02
     res.rule('C04.T13', 'adopted C02.P2: machines move between pools one remove + one append at a time (else the run ends with '
                         'a machine twice in, or missing from, the available pool)')
@@ -231,6 +236,143 @@ def t14(repo, res, canon, logic):
                               'scheduler stops while observations are still to come and nothing more is ever processed')
     (res.ok if ok else res.bad)('C04.T14', run, lp, 'the scheduler loop is left only on shutdown with an empty queue',
                                 '%d leaving path(s)' % n if ok else why)
+    # every round asks the buffer, under no other condition (a cheaper test put in front of the
+    # question makes the scheduler miss an observation that became ready without that test changing)
+    from ..index import guard_stack
+    asks = [c for c in ast.walk(lp) if isinstance(c, ast.Call) and call_name(c) == 'has_observations_ready_for_processing']
+    if not asks:
+        res.bad('C04.T14', run, lp, 'every round of the scheduler loop asks the buffer for a ready observation',
+                'the scheduler loop no longer calls has_observations_ready_for_processing')
+    for c in asks:
+        holder = None
+        for stt in ast.walk(lp):
+            if isinstance(stt, ast.stmt) and not isinstance(stt, (ast.While, ast.For)):
+                tops = [stt.test] if isinstance(stt, ast.If) else [x for x in ast.iter_child_nodes(stt) if isinstance(x, ast.expr)]
+                if any(c is y for t_ in tops for y in ast.walk(t_)):
+                    holder = stt
+                    break
+        gs_ = (guard_stack(run.node, holder) or []) if holder is not None else []
+        for j, g in enumerate(gs_):
+            if g[0] == 'while' and g[1] is lp:
+                gs_ = gs_[j + 1:]          # (what stands before the loop is the actor's entry guard)
+                break
+        conds = [g for g in gs_ if g[0] == 'if']
+        sc = None
+        if holder is not None:
+            for x in ast.walk(holder.test if isinstance(holder, ast.If) else holder):
+                if isinstance(x, ast.BoolOp):
+                    for j, v in enumerate(x.values[1:], 1):
+                        if any(c is y for y in ast.walk(v)):
+                            sc = x.values[0]
+                elif isinstance(x, ast.IfExp) and any(c is y for part in (x.body, x.orelse) for y in ast.walk(part)):
+                    sc = x.test
+        what = 'every round of the scheduler loop asks the buffer for a ready observation'
+        if conds or sc is not None:
+            t_ = conds[0][1] if conds else sc
+            res.bad('C04.T14', run, c, what,
+                    'the scheduler asks the buffer only when `%s` %s: an observation that becomes ready while that test says '
+                    'otherwise (two ingests ending in one step, a count that happens not to change) is never picked up, its '
+                    'workflow never runs and its data is never freed' % (
+                        short(ast.unparse(t_), 70), 'holds' if (not conds or conds[0][2]) else 'does not hold'))
+        else:
+            res.ok('C04.T14', run, c, what)
+
+
+def element_dependent_exits(loop):
+    """[(break/return node, deciding test)] for early exits of a `for` loop whose directly deciding
+    test depends on the current element: names derived from the loop variable inside the body
+    (assigned from an expression that reads a derived name, or assigned under a test that does)."""
+    tainted = {n.id for n in ast.walk(loop.target) if isinstance(n, ast.Name)}
+
+    def reads(e):
+        return any(isinstance(x, ast.Name) and x.id in tainted for x in ast.walk(e))
+    for _ in range(6):
+        before = len(tainted)
+
+        def flow(stmts, under):
+            for st in stmts:
+                if isinstance(st, (ast.FunctionDef, ast.AsyncFunctionDef, ast.ClassDef)):
+                    continue
+                if isinstance(st, (ast.Assign, ast.AugAssign, ast.AnnAssign)):
+                    tg = st.targets if isinstance(st, ast.Assign) else [st.target]
+                    if under or (st.value is not None and reads(st.value)):
+                        for t in tg:
+                            for x in ast.walk(t):
+                                if isinstance(x, ast.Name) and isinstance(x.ctx, ast.Store):
+                                    tainted.add(x.id)
+                elif isinstance(st, (ast.For, ast.AsyncFor)):
+                    if under or reads(st.iter):
+                        for x in ast.walk(st.target):
+                            if isinstance(x, ast.Name):
+                                tainted.add(x.id)
+                    flow(st.body, under or reads(st.iter))
+                    flow(st.orelse, under)
+                elif isinstance(st, (ast.If, ast.While)):
+                    u = under or reads(st.test)
+                    flow(st.body, u)
+                    flow(st.orelse, u)
+                elif isinstance(st, (ast.With, ast.AsyncWith)):
+                    flow(st.body, under)
+                elif isinstance(st, ast.Try):
+                    for b in [st.body, st.orelse, st.finalbody] + [h.body for h in st.handlers]:
+                        flow(b, under)
+        flow(loop.body, False)
+        if len(tainted) == before:
+            break
+    out = []
+
+    def scan(stmts, decider, own):
+        for st in stmts:
+            if isinstance(st, (ast.FunctionDef, ast.AsyncFunctionDef, ast.ClassDef)):
+                continue
+            if (isinstance(st, ast.Break) and own) or isinstance(st, ast.Return):
+                if decider is not None and reads(decider):
+                    out.append((st, decider))
+            elif isinstance(st, ast.If):
+                scan(st.body, st.test, own)
+                scan(st.orelse, st.test, own)
+            elif isinstance(st, (ast.For, ast.AsyncFor, ast.While)):
+                scan(st.body, decider, False)       # (a break there leaves the inner loop; a return leaves all)
+                scan(st.orelse, decider, own)
+            elif isinstance(st, (ast.With, ast.AsyncWith)):
+                scan(st.body, decider, own)
+            elif isinstance(st, ast.Try):
+                for b in [st.body, st.orelse, st.finalbody] + [h.body for h in st.handlers]:
+                    scan(b, decider, own)
+    scan(loop.body, None, True)
+    return out
+
+
+def t15(repo, res):
+    """The scan over the pool of ready tasks looks at every task: it may stop early when nothing more
+    can be allocated in this step, never because of what the CURRENT task looks like (the tasks behind
+    it in the scan order are independent of it)."""
+    res.rule('C04.T15', 'in every scheduling algorithm the scan over the task pool is left early only for a reason that does not '
+                        'depend on the task at hand (a task whose predecessors are unfinished is skipped, not the rest of the pool)')
+    pc = ProvCanon(repo)
+    n = 0
+    for c in repo.subclasses('Scheduling', concrete_only=False):
+        f = c.methods.get('run')
+        if f is None:
+            continue
+        fr = Frame(f)
+        pool = f.params[5] if len(f.params) > 5 else 'task_pool'
+        for lp in [x for x in walk_no_nested(f.node) if isinstance(x, ast.For)]:
+            it = pc.p(lp.iter, fr)
+            if not re.search(r'\b%s\b|\.tasks\b' % re.escape(pool), it):
+                continue
+            n += 1
+            bad = element_dependent_exits(lp)
+            if bad:
+                st, t_ = bad[0]
+                res.bad('C04.T15', f, st, 'the scan over %s is left early only for task-independent reasons' % short(it, 50),
+                        '%s leaves the scan over the pool when `%s` -- a test on the task at hand: the tasks behind it in the scan '
+                        'order are never looked at in this step (and, if the condition persists, never at all): a ready task is '
+                        'not executed' % ('break' if isinstance(st, ast.Break) else 'return', short(ast.unparse(t_), 70)))
+            else:
+                res.ok('C04.T15', f, lp, 'the scan over %s is left early only for task-independent reasons' % short(it, 50))
+    if not n:
+        raise AnalysisError('no scheduling algorithm scans a task pool (C04.T15 anchor moved)')
 
 
 def t12(repo, res, canon, logic):
@@ -560,6 +702,15 @@ def t3(repo, res, canon, pc, logic):
             for c_, pol in conds:
                 lits |= plogic.must(c_, fr, pol)
             want = Lit('TaskStatus.FINISHED == %s.task_status' % E, False)
+            # (the condition must be EQUIVALENT to "not FINISHED": every way of satisfying it, spelled out,
+            #  is exactly that literal -- a further disjunctive condition hides from the must-set)
+            alts = [set()]
+            for c_, pol in conds:
+                d_ = plogic.dnf(c_, fr, pol) or [[]]
+                alts = [a | set(b) for a in alts for b in d_]
+            extra = [a for a in alts if a != {want}]
+            if lits == {want} and extra:
+                lits = extra[0]
             if lits != {want}:
                 ok, why = False, ('a task is kept in the plan under %s, not exactly when it is not FINISHED: finished '
                                   'tasks stay (re-offered) or unfinished tasks are dropped (never executed)' % (
